@@ -471,7 +471,7 @@ func runGrefcount(c *Ctx) {
 							if cnt == nil || snap == nil {
 								continue
 							}
-							if d, ok := g.defs[i][snap]; ok && d.expr != nil && identVar(d.expr, d.fr) == cnt && readsShared(c, pair[0], ev.Frame) {
+							if d, ok := g.defs[i][snap]; ok && (d.expr != nil && identVar(d.expr, d.fr) == cnt || d.alias != nil && d.alias == cnt) && readsShared(c, pair[0], ev.Frame) {
 								if fv := identVar(ev.Lhs, ev.Frame); fv != nil {
 									genFlag, sameIdx = fv, i
 								}
@@ -697,8 +697,41 @@ func refcountAnchors(c *Ctx) *refcountAnchorSet {
 		fv := fieldVar(call.Fun, fr(d))
 		return fv != nil && core.FieldName(fv) == "refcount.Ref.cb"
 	}
+	// … inside a loop over the reference set (entering such a function is "the references are told",
+	// also on the walked path that takes the loop zero times)
 	for _, d := range pkgDecls(c, "refcount") {
-		if !d.Obj.Exported() && bodyOrCalleesMatch(c, d, callsCb, 2) {
+		if d.Obj.Exported() {
+			continue
+		}
+		d := d
+		tells := false
+		ast.Inspect(d.Decl.Body, func(n ast.Node) bool {
+			rs, ok := n.(*ast.RangeStmt)
+			if !ok || tells {
+				return !tells
+			}
+			if fv := fieldVar(rs.X, fr(d)); fv == nil || core.FieldName(fv) != "refcount.RefCount.refs" {
+				return true
+			}
+			ast.Inspect(rs.Body, func(m ast.Node) bool {
+				if m == nil || tells {
+					return !tells
+				}
+				if callsCb(d, m) {
+					tells = true
+				}
+				if call, ok := m.(*ast.CallExpr); ok {
+					if f, _ := typeutil.Callee(d.Pkg.TypesInfo, call).(*types.Func); f != nil && f.Pkg() == d.Obj.Pkg() {
+						if hd := c.Prog.Decl(f.Origin()); hd != nil && hd != d && bodyOrCalleesMatch(c, hd, callsCb, 0) {
+							tells = true
+						}
+					}
+				}
+				return !tells
+			})
+			return !tells
+		})
+		if tells {
 			an.callRefCbs = append(an.callRefCbs, d)
 		}
 	}
